@@ -349,7 +349,7 @@ fn run_c17(ctx: &mut Ctx, rng: &mut Rng, thorough: bool, shard: usize, shards: u
             ctx.log.count("c17:deep-or-wide");
         }
     }
-    let n = if thorough { 100_000 } else { 6_000 } / shards;
+    let n = vh_proto::srcdict::scaled(if thorough { 100_000 } else { 6_000 } / shards);
     for _ in 0..n {
         let mut s = random_shape(rng, 4);
         if let Shape::Leaf(_) = s {
@@ -399,7 +399,7 @@ fn eval_gen(ctx: &mut Ctx, s: u64, kind: usize, cfg: &GenCfg, free: bool) -> boo
 }
 
 fn run_c15(ctx: &mut Ctx, rng: &mut Rng, thorough: bool, shard: usize, shards: usize) {
-    let n = if thorough { 500_000 } else { 24_000 } / shards;
+    let n = vh_proto::srcdict::scaled(if thorough { 500_000 } else { 24_000 } / shards);
     for i in 0..n {
         let kind = (i * shards + shard) % KINDS.len();
         let cfg = GenCfg {
@@ -632,6 +632,15 @@ fn main() {
                     "C15" => run_c15(&mut ctx, &mut rng, thorough, shard, shards),
                     "C17" => run_c17(&mut ctx, &mut rng, thorough, shard, shards),
                     _ => {}
+                }
+                // directed passes: one per constant of /repo's sources that the baseline does not have
+                for (fo, _name) in vh_proto::srcdict::foci() {
+                    vh_proto::srcdict::with_focus(fo, || match prop.as_str() {
+                        "C15" => run_c15(&mut ctx, &mut rng, thorough, shard, shards),
+                        "C17" => run_c17(&mut ctx, &mut rng, thorough, shard, shards),
+                        _ => {}
+                    });
+                    ctx.log.count("source-constant-pass");
                 }
                 ctx.flush();
                 total.lock().unwrap().merge(ctx.log);
